@@ -1,1 +1,427 @@
+//! Scripted in-memory transports (blocking Read+Write and tokio AsyncRead+AsyncWrite) with an event
+//! trace, and session drivers for the blocking and async `Framed` connections.
 
+use std::collections::VecDeque;
+use std::io::{self, Read, Write};
+use std::pin::Pin;
+use std::sync::{Arc, Mutex};
+use std::task::{Context, Poll};
+
+use insim::net::{Codec, Mode};
+use insim::Packet;
+use tokio::io::{AsyncRead, AsyncWrite, ReadBuf};
+
+use crate::engine::guard;
+
+#[derive(Debug, Clone, PartialEq)]
+pub enum ReadStep {
+    /// bytes that become readable (delivered in as many read calls as the offered slices need)
+    Data(Vec<u8>),
+    /// a transient transport error
+    Err(io::ErrorKind),
+    /// async only: not ready once (the waker is woken immediately); blocking transports skip it
+    Pending,
+    /// async: not ready and nobody wakes the task: only the connection's own 90 s timeout ends the wait.
+    /// blocking: the socket read timeout fires (TimedOut)
+    Stall,
+}
+
+#[derive(Debug, Clone, PartialEq)]
+pub enum WriteStep {
+    /// accept at most k bytes of what is offered (k >= 1)
+    Accept(usize),
+    /// async only: not ready once
+    Pending,
+    Err(io::ErrorKind),
+}
+
+#[derive(Debug, Clone, PartialEq)]
+pub enum Event {
+    ReadOffered(usize),
+    ReadDelivered(usize),
+    ReadErr(io::ErrorKind),
+    ReadPending,
+    Eof,
+    Wrote(Vec<u8>),
+    WritePending,
+    WriteErr(io::ErrorKind),
+    /// inserted by the driver: the public read call returned this (rendered) result
+    Returned(String),
+    /// inserted by the driver: the read future was dropped while pending
+    Dropped,
+    /// inserted by the driver: a user write call returned
+    WriteReturned(String),
+}
+
+#[derive(Debug, Default)]
+pub struct Script {
+    pub reads: VecDeque<ReadStep>,
+    pub writes: VecDeque<WriteStep>,
+    pub trace: Vec<Event>,
+    pub written: Vec<u8>,
+    pub min_offered: usize,
+    pub max_offered: usize,
+    /// a waker parked by a Stall step (never woken by the transport)
+    pub stalled: bool,
+    /// paused-clock instant at which the current Stall step began
+    pub stall_started: Option<tokio::time::Instant>,
+}
+
+#[derive(Debug, Clone)]
+pub struct Transport(pub Arc<Mutex<Script>>);
+
+impl Transport {
+    pub fn new(reads: Vec<ReadStep>, writes: Vec<WriteStep>) -> Self {
+        Transport(Arc::new(Mutex::new(Script {
+            reads: reads.into(),
+            writes: writes.into(),
+            min_offered: usize::MAX,
+            ..Default::default()
+        })))
+    }
+    pub fn push_event(&self, e: Event) {
+        self.0.lock().unwrap().trace.push(e);
+    }
+    pub fn take_trace(&self) -> Vec<Event> {
+        std::mem::take(&mut self.0.lock().unwrap().trace)
+    }
+    pub fn written(&self) -> Vec<u8> {
+        self.0.lock().unwrap().written.clone()
+    }
+    pub fn reads_left(&self) -> usize {
+        self.0.lock().unwrap().reads.len()
+    }
+}
+
+enum ReadOutcome {
+    Delivered(usize),
+    Err(io::ErrorKind),
+    Pending { wake: bool },
+}
+
+impl Script {
+    fn do_read(&mut self, buf: &mut [u8], blocking: bool) -> ReadOutcome {
+        self.trace.push(Event::ReadOffered(buf.len()));
+        self.min_offered = self.min_offered.min(buf.len());
+        self.max_offered = self.max_offered.max(buf.len());
+        loop {
+            match self.reads.pop_front() {
+                None => {
+                    self.trace.push(Event::Eof);
+                    return ReadOutcome::Delivered(0);
+                },
+                Some(ReadStep::Data(d)) => {
+                    if d.is_empty() {
+                        continue;
+                    }
+                    let n = d.len().min(buf.len());
+                    buf[..n].copy_from_slice(&d[..n]);
+                    if n < d.len() {
+                        self.reads.push_front(ReadStep::Data(d[n..].to_vec()));
+                    }
+                    self.trace.push(Event::ReadDelivered(n));
+                    return ReadOutcome::Delivered(n);
+                },
+                Some(ReadStep::Err(k)) => {
+                    self.trace.push(Event::ReadErr(k));
+                    return ReadOutcome::Err(k);
+                },
+                Some(ReadStep::Pending) => {
+                    if blocking {
+                        continue;
+                    }
+                    self.trace.push(Event::ReadPending);
+                    return ReadOutcome::Pending { wake: true };
+                },
+                Some(ReadStep::Stall) => {
+                    if blocking {
+                        self.trace.push(Event::ReadErr(io::ErrorKind::TimedOut));
+                        return ReadOutcome::Err(io::ErrorKind::TimedOut);
+                    }
+                    // Nothing arrives for longer than the connection is willing to wait. tokio's timeout() polls the
+                    // wrapped future once more when its deadline fires, so the step stays in place until a poll has
+                    // seen the (paused) clock 90 s later; that poll is still Pending, the next one proceeds.
+                    let now = tokio::time::Instant::now();
+                    let started = *self.stall_started.get_or_insert(now);
+                    if now.duration_since(started) < std::time::Duration::from_secs(insim::net::DEFAULT_TIMEOUT_SECS) {
+                        self.reads.push_front(ReadStep::Stall);
+                    } else {
+                        self.stall_started = None;
+                    }
+                    self.trace.push(Event::ReadPending);
+                    return ReadOutcome::Pending { wake: false };
+                },
+            }
+        }
+    }
+
+    fn do_write(&mut self, buf: &[u8], blocking: bool) -> Result<Poll<usize>, io::ErrorKind> {
+        loop {
+            match self.writes.pop_front() {
+                None => {
+                    self.trace.push(Event::Wrote(buf.to_vec()));
+                    self.written.extend_from_slice(buf);
+                    return Ok(Poll::Ready(buf.len()));
+                },
+                Some(WriteStep::Accept(k)) => {
+                    let n = k.max(1).min(buf.len());
+                    self.trace.push(Event::Wrote(buf[..n].to_vec()));
+                    self.written.extend_from_slice(&buf[..n]);
+                    return Ok(Poll::Ready(n));
+                },
+                Some(WriteStep::Pending) => {
+                    if blocking {
+                        continue;
+                    }
+                    self.trace.push(Event::WritePending);
+                    return Ok(Poll::Pending);
+                },
+                Some(WriteStep::Err(k)) => {
+                    self.trace.push(Event::WriteErr(k));
+                    return Err(k);
+                },
+            }
+        }
+    }
+}
+
+impl Read for Transport {
+    fn read(&mut self, buf: &mut [u8]) -> io::Result<usize> {
+        match self.0.lock().unwrap().do_read(buf, true) {
+            ReadOutcome::Delivered(n) => Ok(n),
+            ReadOutcome::Err(k) => Err(io::Error::new(k, "scripted transport error")),
+            ReadOutcome::Pending { .. } => unreachable!(),
+        }
+    }
+}
+
+impl Write for Transport {
+    fn write(&mut self, buf: &[u8]) -> io::Result<usize> {
+        if buf.is_empty() {
+            return Ok(0);
+        }
+        match self.0.lock().unwrap().do_write(buf, true) {
+            Ok(Poll::Ready(n)) => Ok(n),
+            Ok(Poll::Pending) => unreachable!(),
+            Err(k) => Err(io::Error::new(k, "scripted transport error")),
+        }
+    }
+    fn flush(&mut self) -> io::Result<()> {
+        Ok(())
+    }
+}
+
+impl AsyncRead for Transport {
+    fn poll_read(self: Pin<&mut Self>, cx: &mut Context<'_>, buf: &mut ReadBuf<'_>) -> Poll<io::Result<()>> {
+        let mut s = self.0.lock().unwrap();
+        let slice = buf.initialize_unfilled();
+        match s.do_read(slice, false) {
+            ReadOutcome::Delivered(n) => {
+                buf.advance(n);
+                Poll::Ready(Ok(()))
+            },
+            ReadOutcome::Err(k) => Poll::Ready(Err(io::Error::new(k, "scripted transport error"))),
+            ReadOutcome::Pending { wake } => {
+                if wake {
+                    cx.waker().wake_by_ref();
+                } else {
+                    s.stalled = true;
+                }
+                Poll::Pending
+            },
+        }
+    }
+}
+
+impl AsyncWrite for Transport {
+    fn poll_write(self: Pin<&mut Self>, cx: &mut Context<'_>, buf: &[u8]) -> Poll<io::Result<usize>> {
+        if buf.is_empty() {
+            return Poll::Ready(Ok(0));
+        }
+        match self.0.lock().unwrap().do_write(buf, false) {
+            Ok(Poll::Ready(n)) => Poll::Ready(Ok(n)),
+            Ok(Poll::Pending) => {
+                cx.waker().wake_by_ref();
+                Poll::Pending
+            },
+            Err(k) => Poll::Ready(Err(io::Error::new(k, "scripted transport error"))),
+        }
+    }
+    fn poll_flush(self: Pin<&mut Self>, _cx: &mut Context<'_>) -> Poll<io::Result<()>> {
+        Poll::Ready(Ok(()))
+    }
+    fn poll_shutdown(self: Pin<&mut Self>, _cx: &mut Context<'_>) -> Poll<io::Result<()>> {
+        Poll::Ready(Ok(()))
+    }
+}
+
+// ---------------------------------------------------------------------------------------
+// result rendering (so that blocking and tokio results are comparable)
+// ---------------------------------------------------------------------------------------
+
+pub fn render(r: &Result<Packet, insim::Error>) -> String {
+    match r {
+        Ok(p) => format!("Ok({p:?})"),
+        Err(insim::Error::Disconnected) => "Err(Disconnected)".into(),
+        Err(insim::Error::IncompatibleVersion(v)) => format!("Err(IncompatibleVersion({v}))"),
+        Err(insim::Error::Timeout(_)) => "Err(transient:TimedOut)".into(),
+        Err(insim::Error::IO { kind, .. }) => {
+            if *kind == io::ErrorKind::InvalidData {
+                "Err(framing)".into()
+            } else {
+                format!("Err(transient:{kind:?})")
+            }
+        },
+        Err(insim::Error::BinRw(_)) => "Err(decode)".into(),
+        Err(e) => format!("Err(other:{e})"),
+    }
+}
+
+pub struct Session {
+    pub results: Vec<String>,
+    pub trace: Vec<Event>,
+    pub written: Vec<u8>,
+    pub min_offered: usize,
+    pub max_offered: usize,
+    pub panic: Option<String>,
+}
+
+/// Read until `Disconnected` (or a framing error, which is terminal, or `max_reads`).
+pub fn run_blocking(mode: &Mode, verify: bool, reads: Vec<ReadStep>, writes: Vec<WriteStep>, max_reads: usize) -> Session {
+    let t = Transport::new(reads, writes);
+    let mut framed = insim::net::blocking_impl::Framed::new(Box::new(t.clone()), Codec::new(mode.clone()));
+    framed.verify_version(verify);
+    let mut results = vec![];
+    let mut panic = None;
+    for _ in 0..max_reads {
+        let r = match guard(|| framed.read()) {
+            Ok(r) => r,
+            Err(p) => {
+                panic = Some(p);
+                break;
+            },
+        };
+        let s = render(&r);
+        t.push_event(Event::Returned(s.clone()));
+        let stop = s == "Err(Disconnected)" || s == "Err(framing)";
+        results.push(s);
+        if stop {
+            break;
+        }
+    }
+    let sc = t.0.lock().unwrap();
+    Session { results, trace: sc.trace.clone(), written: sc.written.clone(), min_offered: sc.min_offered, max_offered: sc.max_offered, panic }
+}
+
+pub fn tokio_runtime() -> tokio::runtime::Runtime {
+    tokio::runtime::Builder::new_current_thread().enable_time().start_paused(true).build().expect("tokio runtime")
+}
+
+pub fn run_tokio(mode: &Mode, verify: bool, reads: Vec<ReadStep>, writes: Vec<WriteStep>, max_reads: usize) -> Session {
+    let t = Transport::new(reads, writes);
+    let rt = tokio_runtime();
+    let mut results = vec![];
+    let mut panic = None;
+    let t2 = t.clone();
+    let mode = mode.clone();
+    let out = guard(|| {
+        rt.block_on(async {
+            let mut framed = insim::net::tokio_impl::Framed::new(Box::new(t2.clone()), Codec::new(mode));
+            framed.verify_version(verify);
+            let mut results = vec![];
+            for _ in 0..max_reads {
+                let r = framed.read().await;
+                let s = render(&r);
+                t2.push_event(Event::Returned(s.clone()));
+                let stop = s == "Err(Disconnected)" || s == "Err(framing)";
+                results.push(s);
+                if stop {
+                    break;
+                }
+            }
+            results
+        })
+    });
+    match out {
+        Ok(r) => results = r,
+        Err(p) => panic = Some(p),
+    }
+    let sc = t.0.lock().unwrap();
+    Session { results, trace: sc.trace.clone(), written: sc.written.clone(), min_offered: sc.min_offered, max_offered: sc.max_offered, panic }
+}
+
+/// Reference model of a session: what successive reads must return for this script.
+/// `frame_result(frame)` is the codec's verdict on one complete frame in isolation.
+pub fn model_results(mode: &Mode, verify: bool, reads: &[ReadStep], blocking: bool, max_reads: usize) -> Vec<String> {
+    let codec = Codec::new(mode.clone());
+    let mut buf: Vec<u8> = vec![];
+    let mut steps = reads.iter();
+    let mut out = vec![];
+    'calls: for _ in 0..max_reads {
+        loop {
+            // a complete frame buffered?
+            if buf.len() >= 4 {
+                let a = match mode {
+                    Mode::Uncompressed => buf[0] as usize,
+                    Mode::Compressed => buf[0] as usize * 4,
+                };
+                if a < 4 {
+                    out.push("Err(framing)".into());
+                    break 'calls;
+                }
+                if buf.len() >= a {
+                    let frame: Vec<u8> = buf.drain(..a).collect();
+                    let mut b = bytes::BytesMut::from(&frame[..]);
+                    let r = match codec.decode(&mut b) {
+                        Ok(Some(p)) => {
+                            if verify {
+                                match p.maybe_verify_version_model() {
+                                    Some(v) => Err(insim::Error::IncompatibleVersion(v)),
+                                    None => Ok(p),
+                                }
+                            } else {
+                                Ok(p)
+                            }
+                        },
+                        Ok(None) => Err(insim::Error::BinRw("model: incomplete".into())),
+                        Err(e) => Err(e),
+                    };
+                    out.push(render(&r));
+                    continue 'calls;
+                }
+            } else if !buf.is_empty() && false {
+            }
+            match steps.next() {
+                None => {
+                    out.push("Err(Disconnected)".into());
+                    break 'calls;
+                },
+                Some(ReadStep::Data(d)) => buf.extend_from_slice(d),
+                Some(ReadStep::Err(k)) => {
+                    out.push(format!("Err(transient:{k:?})"));
+                    continue 'calls;
+                },
+                Some(ReadStep::Pending) => {},
+                Some(ReadStep::Stall) => {
+                    let _ = blocking;
+                    out.push("Err(transient:TimedOut)".into());
+                    continue 'calls;
+                },
+            }
+        }
+    }
+    out
+}
+
+/// The version gate's reference model: VER with InSim version != 9 is rejected (value carried).
+pub trait VersionModel {
+    fn maybe_verify_version_model(&self) -> Option<u8>;
+}
+impl VersionModel for Packet {
+    fn maybe_verify_version_model(&self) -> Option<u8> {
+        match self {
+            Packet::Ver(v) if v.insimver != 9 => Some(v.insimver),
+            _ => None,
+        }
+    }
+}
